@@ -84,6 +84,10 @@ pub fn correspondence(args: &Args, cases: &[Case]) -> Result<CorrReport, String>
         rep.cases += 1;
         let hdr = model_lines.next().unwrap_or("");
         if hdr != format!("case {}", c.name) { return Err(format!("driver output out of step at case {}: got `{}`", c.name, hdr)); }
+        // breadcrumb: if the implementation aborts the process (std precondition check, allocation failure) the
+        // check script picks this file up as the replay
+        let crumb = format!("{}/build/current_case_{}.txt", args.workdir, args.prop);
+        let _ = std::fs::write(&crumb, format!("# property {} — the harness process died while executing this case on the real code\n{}\n", args.prop, all_lines[ci].join("\n")));
         let real = exec_case(c);
         let e = rep.per_stream.entry(c.stream.to_string()).or_insert((0, 0));
         e.0 += 1; e.1 += c.ops.len();
@@ -103,6 +107,7 @@ pub fn correspondence(args: &Args, cases: &[Case]) -> Result<CorrReport, String>
             }
         }
     }
+    let _ = std::fs::remove_file(format!("{}/build/current_case_{}.txt", args.workdir, args.prop));
     rep.ties = stats.ties; rep.captie = stats.captie;
     Ok(rep)
 }
